@@ -54,12 +54,25 @@ def isChangeEntry (e : Option RCmd) : Bool :=
   | some c => c.kind == .change && c.motion.isSome
   | none => false
 
+/-- `line_below_entry`: for a session opened with `o`/`O`, the command that opens the line for the next
+repetition of a counted session (always below the line just typed; fix for `3oX`). -/
+def belowEntry (e : Option RCmd) : Option RCmd :=
+  match e with
+  | some c => if c.kind == .lineBreak then some { c with verb := some "InsertModeLineBreak(After)", vcount := 1 } else none
+  | none => none
+
+/-- the typed text `k` times; for an `o`/`O` session every repetition after the first on a line of its own -/
+def rounds (below : Option RCmd) (typed : List RCmd) (k : Nat) : List RCmd :=
+  match below with
+  | none => (List.replicate k typed).flatten
+  | some b => typed ++ (List.replicate (k - 1) (b :: typed)).flatten
+
 /-- The replay of a session: entry once, the text `k` times, <esc> once. -/
 def modeExecs (cmds : List RCmd) (reps n : Nat) : List RCmd :=
   (if decide (n > 1) && isChangeEntry (splitEntry cmds).1
      then (splitEntry cmds).1.map (fun c => c.withCount n) else (splitEntry cmds).1).toList
-  ++ (List.replicate (max (if decide (n > 1) && !isChangeEntry (splitEntry cmds).1 then n else reps) 1)
-        (splitExit (splitEntry cmds).2).2).flatten
+  ++ rounds (belowEntry (splitEntry cmds).1) (splitExit (splitEntry cmds).2).2
+        (max (if decide (n > 1) && !isChangeEntry (splitEntry cmds).1 then n else reps) 1)
   ++ (splitExit (splitEntry cmds).2).1.toList
 
 /-- What `.` with count `n` (1 = none) hands to `LineBuf::exec_cmd`, in order. -/
@@ -88,9 +101,13 @@ def dotExecsA (fails : RCmd → Bool) (rep : Option Replay) (n : Nat) : List RCm
     if entryFails fails (replayEntry cmds n) then [] else modeExecs cmds reps n
   | _ => dotExecs rep n
 
+/-- What typing the session executes: entry, the text (`repeat` times when it is closed), <esc>. -/
+def sessionExecs (entry : RCmd) (typed : List RCmd) (exit : RCmd) (reps : Nat) : List RCmd :=
+  [entry] ++ rounds (belowEntry (some entry)) typed (max reps 1) ++ [exit]
+
 /-- Typing a change: abandoned when its motion fails, else the session as typed. -/
 def sessionExecsA (fails : RCmd → Bool) (entry : RCmd) (typed : List RCmd) (exit : RCmd) (reps : Nat) : List RCmd :=
-  if entry.kind == .change && fails entry then [] else [entry] ++ (List.replicate (max reps 1) typed).flatten ++ [exit]
+  if entry.kind == .change && fails entry then [] else sessionExecs entry typed exit reps
 
 /-- The recording: a repeatable command executed in normal/visual mode becomes the replay. -/
 def recordCmd (rep : Option Replay) (c : RCmd) : Option Replay :=
@@ -104,9 +121,5 @@ def recordCmdF (rep : Option Replay) (c : RCmd) (failed : Bool) : Option Replay 
 /-- Leaving an insert/replace session: entry command, everything typed, the closing <esc>. -/
 def recordSession (entry : RCmd) (typed : List RCmd) (exit : RCmd) (reps : Nat) : Option Replay :=
   some (.mode (entry :: typed ++ [exit]) reps)
-
-/-- What typing the session executes: entry, the text (`repeat` times when it is closed), <esc>. -/
-def sessionExecs (entry : RCmd) (typed : List RCmd) (exit : RCmd) (reps : Nat) : List RCmd :=
-  [entry] ++ (List.replicate (max reps 1) typed).flatten ++ [exit]
 
 end Vicut
